@@ -141,7 +141,8 @@ def halves_clause(model, rep, funcs):
                clause="2 halves", stmt="def random_splitter")
         # S is drawn from the generator argument, from arange(nmole), size nmole // 2
         ch = [c for c in calls_in(f) if isinstance(c.func, ast.Attribute) and c.func.attr in ("choice", "permutation", "integers")]
-        okc = len(ch) == 1 and norm_src(ch[0].func.value) == f.param_names()[0] and "nmole // 2" in norm_src(ch[0]) and "nmole" in norm_src(ch[0].args[0])
+        chx = Matcher(f).expr(ch[0]) if len(ch) == 1 else None  # temporaries such as `n_draw = nmole // 2` expanded
+        okc = chx is not None and norm_src(ch[0].func.value) == f.param_names()[0] and "nmole // 2" in norm_src(chx) and "nmole" in norm_src(chx.args[0])
         rep.ob("M", f.anchor, "the selected half has nmole // 2 draws from range(nmole) taken from the generator argument (=> both halves non-empty for nmole >= 2)",
                okc, norm_src(ch[0])[:80] if ch else "no draw", node=f.node, fn=f, clause="2 halves", stmt="def random_splitter draw")
     for a in (LB + "average_split", LG + "average_split"):
